@@ -1136,8 +1136,13 @@ fn main() {
 		let dir = PathBuf::from(work);
 		std::fs::create_dir_all(&dir).unwrap();
 		let mut st = Stats::default();
-		prune_list_stream(&mut out, &mut rng, &mut st, if thorough { 400 } else { 60 }, &dir);
-		print_stats(&mut out, "prunelist", &st);
+		let rounds = if thorough { 400 } else { 60 };
+		prune_list_stream(&mut out, &mut rng, &mut st, rounds, &dir);
+		out.raw(&format!(
+			"#STAT [prunelist] {} direct PruneList sequences, {} appends (leaves and aligned subtree roots), every position queried, flush+open each",
+			rounds,
+			st.ops.get("pl_append").cloned().unwrap_or(0)
+		));
 	}
 	out.flush();
 }
